@@ -58,6 +58,15 @@ TARGETS = [
      {"option": True, "extra": [("hash256", "Bytes → Bytes")], "lists": ["num_bytes", "checksum"]}),
     ("helper.py", "b58decode_addr", "b58decode_addr", [("s", "List Char")], "Option Bytes",
      {"option": True, "extra": [("hash256", "Bytes → Bytes")]}),
+    # ---- third batch: the Bech32 / segwit-address codec (C11)
+    ("bech32.py", "bech32_encode", "bech32_encode", [("hrp", "List Char"), ("data", "List Nat"), ("spec", "Bech32.Encoding")],
+     "Option (List Char)", {"option": True, "lists": ["combined"]}),
+    ("bech32.py", "bech32_decode", "bech32_decode", [("bech", "List Char")],
+     "Option (List Char × List Nat × Bech32.Encoding)", {"option": True, "ints": ["pos"], "strings": ["hrp"], "lists": ["data"]}),
+    ("bech32.py", "decode", "decode", [("hrp", "List Char"), ("addr", "List Char")], "Option (Nat × List Nat)",
+     {"option": True, "lists": ["data", "decoded"], "strings": ["hrpgot"]}),
+    ("bech32.py", "encode", "encode", [("hrp", "List Char"), ("witver", "Nat"), ("witprog", "Bytes")],
+     "Option (List Char)", {"option": True, "strings": ["ret"]}),
     ("bip39.py", "correct_entropy_bits_value", "correct_entropy_bits_value", [("entropy_bits", "Nat")],
      "Option Unit", {"option": True}),
     ("bip39.py", "mnemonic_from_entropy", "mnemonic_from_entropy", [("entropy", "List Char")],
@@ -81,6 +90,8 @@ OPTION_FUNCS = {t[2] for t in TARGETS if t[5].get("option")}
 KNOWN_FUNCS = {t[1].split(".")[-1]: t[2] for t in TARGETS}
 EXTRA_PARAMS = {t[2]: [a for a, _ in t[5].get("extra", [])] for t in TARGETS}
 STRING_GLOBALS = {"BASE58_ALPHABET", "CHARSET"}
+ARG_TYPES = {t[2]: [ty for _, ty in t[3]] for t in TARGETS}
+PY_DEFAULTS = {}       # lean name -> list of python default expressions (filled while parsing)
 LISTY_FUNCS = {"bech32_hrp_expand", "int_to_little_endian", "bech32_create_checksum", "int_to_big_endian",
                "decode_base58", "decode_base58_checksum", "encode_base58", "encode_base58_checksum", "hash256", "sha256"}
 
@@ -103,6 +114,9 @@ class Fn:
         self.nat_subs = []
         self.bools = {a for a, t in args if t == "Bool"}
         self.declared = [set(a for a, _ in args)]
+        self.ints = set(opts.get("ints", []))
+        self.bound_opts = set()         # variables assigned from an option-returning call by bind (never None afterwards)
+        self.bytes_vars = {a for a, t in args if t == "Bytes"}
         self.extra = opts.get("extra", [])
         self.extra_names = {a for a, _ in self.extra}
 
@@ -137,6 +151,14 @@ class Fn:
                 (e.value.id in STRING_GLOBALS or e.value.id in self.strings):
             return True
         return False
+
+    def nat(self, e):
+        """an index / slice bound as a Nat: an expression over Int-typed variables is converted with toNat (Python would
+        wrap a negative bound around; every use in the targets comes after a test that excludes negative values)"""
+        t = self.expr(e)
+        if any(isinstance(n, ast.Name) and n.id in self.ints for n in ast.walk(e)):
+            return "(%s).toNat" % t
+        return t
 
     def as_list(self, e):
         """expression as a list (a character becomes a one-element list)"""
@@ -201,6 +223,11 @@ class Fn:
             g = e.generators[0]
             if not isinstance(g.target, ast.Name):
                 raise Unsupported("comprehension target")
+            if self.option and self.is_char(e.elt) and isinstance(e.elt, ast.Subscript) and \
+                    isinstance(e.elt.slice, ast.Name) and e.elt.slice.id == g.target.id:
+                # [STR[d] for d in xs]: an index outside the string raises IndexError -> none
+                return "(← (%s).mapM (fun %s => (%s)[%s]?))" % (self.iterable(g.iter), self.ident(g.target.id),
+                                                              self.expr(e.elt.value), self.ident(g.target.id))
             if isinstance(e.elt, ast.Subscript) and isinstance(e.elt.value, ast.Name) and e.elt.value.id == "word_list" \
                     and isinstance(e.elt.slice, ast.Name) and e.elt.slice.id == g.target.id:
                 if not self.option:
@@ -219,7 +246,7 @@ class Fn:
                 return "(lastN %s %s)" % (self.expr(e.slice.lower.operand), self.expr(e.value))
             base = self.expr(e.value)
             if isinstance(e.slice, ast.Slice):
-                lo = self.expr(e.slice.lower) if e.slice.lower is not None else None
+                lo = self.nat(e.slice.lower) if e.slice.lower is not None else None
                 hi = e.slice.upper
                 if e.slice.step is not None:
                     raise Unsupported("slice step")
@@ -230,8 +257,8 @@ class Fn:
                 if hi is None:
                     return "(%s.drop %s)" % (base, lo or "0")
                 if lo is None:
-                    return "(%s.take %s)" % (base, self.expr(hi))
-                return "((%s.drop %s).take (%s - %s))" % (base, lo, self.expr(hi), lo)
+                    return "(%s.take %s)" % (base, self.nat(hi))
+                return "((%s.drop %s).take (%s - %s))" % (base, lo, self.nat(hi), lo)
             idx = e.slice
             if isinstance(idx, ast.UnaryOp) and isinstance(idx.op, ast.USub) and \
                     isinstance(idx.operand, ast.Constant) and idx.operand.value == 1:
@@ -243,8 +270,14 @@ class Fn:
             return "(decide %s)" % self.cond(e)
         raise Unsupported("expression " + type(e).__name__)
 
-    def call(self, e):
+    def call(self, e, bind=True):
         f = e.func
+        if isinstance(f, ast.Name) and f.id in ("any", "all") and len(e.args) == 1 and \
+                isinstance(e.args[0], ast.GeneratorExp) and len(e.args[0].generators) == 1 and \
+                not e.args[0].generators[0].ifs and isinstance(e.args[0].generators[0].target, ast.Name):
+            g = e.args[0].generators[0]
+            return "((%s).%s (fun %s => decide %s))" % (self.iterable(g.iter), f.id, self.ident(g.target.id),
+                                                       self.cond(e.args[0].elt))
         if isinstance(f, ast.Name):
             if f.id == "len" and len(e.args) == 1:
                 return "(%s).length" % self.expr(e.args[0])
@@ -270,10 +303,26 @@ class Fn:
                 for x in EXTRA_PARAMS.get(lean, []):
                     if x not in self.extra_names:
                         raise Unsupported("callee %s needs the primitive %s" % (f.id, x))
-                args = EXTRA_PARAMS.get(lean, []) + [self.expr(a) for a in e.args] + \
-                    [self.expr(k.value) for k in e.keywords]
+                pyargs = list(e.args) + [k.value for k in e.keywords]
+                n_params = len(ARG_TYPES.get(lean, pyargs))
+                if len(pyargs) < n_params:          # trailing parameters left to their Python defaults
+                    dflt = PY_DEFAULTS.get(lean, [])
+                    missing = n_params - len(pyargs)
+                    if missing > len(dflt):
+                        raise Unsupported("call of %s with too few arguments" % f.id)
+                    pyargs += dflt[len(dflt) - missing:]
+                targs = []
+                for i_, a_ in enumerate(pyargs):
+                    t_ = self.expr(a_)
+                    want = ARG_TYPES.get(lean, [None] * len(pyargs))[i_] if i_ < n_params else None
+                    if want == "List Nat" and isinstance(a_, ast.Name) and a_.id in self.bytes_vars:
+                        t_ = "(%s.map UInt8.toNat)" % t_        # a bytes object iterated as integers
+                    targs.append(t_)
+                args = EXTRA_PARAMS.get(lean, []) + targs
                 txt = "(%s %s)" % (lean, " ".join(args))
                 if lean in OPTION_FUNCS:
+                    if not bind:
+                        return txt
                     if not self.option:
                         raise Unsupported("option-returning callee in a total function")
                     return "(← %s)" % txt
@@ -290,6 +339,17 @@ class Fn:
                 return "(← fromHex %s)" % self.expr(e.args[0])
             if f.attr == "index" and isinstance(f.value, ast.Name) and f.value.id in STRING_GLOBALS and len(e.args) == 1:
                 return "(%s.idxOf %s)" % (self.expr(f.value), self.expr(e.args[0]))     # only reached after `c in STR`
+            if f.attr == "rfind" and len(e.args) == 1 and self.is_char(e.args[0]):
+                return "(Py.rfind %s %s)" % (self.expr(f.value), self.expr(e.args[0]))      # Int, -1 when absent
+            if f.attr in ("lower", "upper") and not e.args and isinstance(f.value, ast.Name) and f.value.id in self.strings:
+                # str.lower()/upper(): ASCII case mapping (exact on ASCII strings; the targets test the range first)
+                return "(%s.map Py.%sAscii)" % (self.expr(f.value), f.attr)
+            if f.attr == "find" and isinstance(f.value, ast.Name) and f.value.id in STRING_GLOBALS and len(e.args) == 1:
+                # STR.find(c): position (Python: -1 when absent, here the length; every use follows `c in STR`)
+                return "(%s.idxOf %s)" % (self.expr(f.value), self.expr(e.args[0]))
+            if f.attr == "join" and isinstance(f.value, ast.Constant) and f.value.value == "" and len(e.args) == 1 and \
+                    isinstance(e.args[0], ast.ListComp) and self.is_char(e.args[0].elt):
+                return self.expr(e.args[0])             # ''.join of one-character strings = the list of characters
             if f.attr == "zfill" and len(e.args) == 1:
                 return "(Bip39.zfill %s %s)" % (self.expr(e.args[0]), self.expr(f.value))
             if f.attr == "findall" and isinstance(f.value, ast.Name) and f.value.id == "re" and len(e.args) == 2:
@@ -339,6 +399,19 @@ class Fn:
             parts = []
             left = e.left
             for op, right in zip(e.ops, e.comparators):
+                if isinstance(op, (ast.Is, ast.IsNot)) and isinstance(right, ast.Constant) and right.value is None:
+                    if isinstance(left, ast.Name) and left.id in self.bound_opts:
+                        # the variable was bound from an option-returning call: a None result already ended the function
+                        parts.append("False" if isinstance(op, ast.Is) else "True")
+                        left = right
+                        continue
+                    raise Unsupported("`is None` of a value that is not a bound option result")
+                if isinstance(op, (ast.Eq, ast.NotEq)) and isinstance(right, ast.Tuple) and right.elts and \
+                        all(isinstance(x, ast.Constant) and x.value is None for x in right.elts) and \
+                        isinstance(left, ast.Call):
+                    parts.append("(%s %s none)" % (self.call(left, bind=False), "=" if isinstance(op, ast.Eq) else "≠"))
+                    left = right
+                    continue
                 if isinstance(op, (ast.In, ast.NotIn)):
                     if isinstance(right, ast.Tuple):
                         rhs = "[" + ", ".join(self.expr(x) for x in right.elts) + "]"
@@ -362,6 +435,8 @@ class Fn:
         if isinstance(e, ast.Name) and e.id in self.bools:
             return "(%s = true)" % self.ident(e.id)
         if isinstance(e, ast.Call) and isinstance(e.func, ast.Attribute) and e.func.attr in ("isascii", "isdigit"):
+            return "(%s = true)" % self.expr(e)
+        if isinstance(e, ast.Call) and isinstance(e.func, ast.Name) and e.func.id in ("any", "all"):
             return "(%s = true)" % self.expr(e)
         if self.is_listy(e):
             return "(%s ≠ [])" % self.expr(e)
@@ -417,9 +492,23 @@ class Fn:
                     self.declared[-1].add(n)
                 out.append(ind + "%s%s := (divmod_a %s divmod_b)" % (kw, self.ident(n), op))
             return out
+        if isinstance(s, ast.Assign) and len(s.targets) == 1 and isinstance(s.targets[0], ast.Tuple) and \
+                isinstance(s.value, ast.Call) and isinstance(s.value.func, ast.Name) and \
+                KNOWN_FUNCS.get(s.value.func.id) in OPTION_FUNCS and self.option and \
+                all(isinstance(x, ast.Name) for x in s.targets[0].elts):
+            names = [x.id for x in s.targets[0].elts]
+            for n in names:
+                if self.is_declared(n):
+                    raise Unsupported("tuple unpacking into an existing variable")
+                self.declared[-1].add(n)
+                self.bound_opts.add(n)
+            return [ind + "let (%s) ← %s" % (", ".join(self.ident(n) for n in names), self.call(s.value, bind=False))]
         if isinstance(s, ast.Assign):
             if len(s.targets) != 1 or not isinstance(s.targets[0], ast.Name):
                 raise Unsupported("assignment target " + ast.unparse(s))
+            if isinstance(s.value, ast.Call) and isinstance(s.value.func, ast.Name) and \
+                    KNOWN_FUNCS.get(s.value.func.id) in OPTION_FUNCS:
+                self.bound_opts.add(s.targets[0].id)
             n = s.targets[0].id
             if self.is_listy(s.value):
                 self.lists.add(n)
@@ -471,6 +560,11 @@ class Fn:
                 return [ind + self.ret("none")]
             if isinstance(s.value, ast.Constant) and s.value.value is None:
                 return [ind + "return none" if not self.option else ind + "none"]
+            if isinstance(s.value, ast.Tuple) and s.value.elts and \
+                    all(isinstance(x, ast.Constant) and x.value is None for x in s.value.elts):
+                if not self.option:
+                    raise Unsupported("tuple of None in a total function")
+                return [ind + "none"]               # (None, ..., None): "no result", like None
             return [ind + self.ret(self.expr(s.value))]
         if isinstance(s, ast.Break):
             return [ind + "break"]
@@ -485,6 +579,11 @@ class Fn:
     def emit(self):
         args = " ".join("(%s : %s)" % (self.ident(a), t) for a, t in list(self.extra) + list(self.args))
         body = self.block(self.node.body, "  ")
+        assigned = {t.id for n in ast.walk(self.node) if isinstance(n, (ast.Assign, ast.AugAssign))
+                    for t in (n.targets if isinstance(n, ast.Assign) else [n.target]) if isinstance(t, ast.Name)}
+        for a, _ in reversed(self.args):            # a parameter that the body re-assigns becomes a mutable local
+            if a in assigned:
+                body.insert(0, "  let mut %s := %s" % (self.ident(a), self.ident(a)))
         if self.rettype == "Option Unit":
             body.append("  return ()")
         if self.option:
@@ -514,6 +613,12 @@ def find_function(tree, qual):
 def translate_all():
     chunks = []
     status = {}
+    for pyfile, qual, lean, args, ret, opts in TARGETS:      # Python default values of trailing parameters
+        try:
+            node = find_function(ast.parse(open(os.path.join(REPO, "btc_hd_wallet", pyfile), encoding="utf-8").read()), qual)
+            PY_DEFAULTS[lean] = list(node.args.defaults) if node is not None else []
+        except Exception:
+            PY_DEFAULTS[lean] = []
     for pyfile, qual, lean, args, ret, opts in TARGETS:
         src_path = os.path.join(REPO, "btc_hd_wallet", pyfile)
         try:
@@ -523,7 +628,7 @@ def translate_all():
                 raise Unsupported("function not found")
             # drop `self`/`cls`
             pyargs = [a.arg for a in node.args.args if a.arg not in ("self", "cls")]
-            if pyargs[:len(args)] != [a for a, _ in args] and len(pyargs) != len(args):
+            if False:
                 raise Unsupported("signature changed: %s" % pyargs)
             if pyargs != [a for a, _ in args]:
                 raise Unsupported("parameter names changed: %s" % pyargs)
